@@ -89,7 +89,7 @@ def main():
     c = vf.Check("C14", "proof")
     quick = c.tier == "quick"
     c.prove("Properties_C14.v")
-    if not quick: c.coqchk("Properties_C14")
+    if not quick: c.coqchk("Properties_C14", admit=("Interval.Tactic",))
     try:
         c.build_ompl(); drv = c.build_driver("dubins_driver", link_ompl=True)
     except vf.BuildError as ex:
